@@ -48,7 +48,7 @@ def event_case(draw, part, terminal_mode="none", max_events=6):
     if far and draw(st.booleans()):
         tol = 1e-9
     return dict(part=part, method=method, dtype="float64", prob=prob, t0=t0, tf=tf, dt=L * frac * draw(st.sampled_from([1.0, -1.0])),
-                rtol=tol, atol=tol, dense=draw(st.booleans()), events=evs)
+                rtol=tol, atol=tol, dense=draw(st.booleans()), events=evs, against=draw(st.integers(0, 5)) == 0)
 
 
 class Run(object):
@@ -63,7 +63,13 @@ def run(case, target=None, extra_callbacks=(), step_cap=1500):
     P = EV.ExactProblem(case["prob"], case["t0"])
     evs = [EV.Event(p) for p in case["events"]]
     kw = dict(rtol=case["rtol"], atol=case["atol"])
-    a = de.OdeSystem(P, y0=P.y0.copy(), t=(case["t0"], case["tf"]), dense_output=bool(case["dense"]), dt=case["dt"], **kw)
+    declared_tf = case["tf"]
+    if case.get("against"):
+        # the system is declared over the mirrored span; every call is an explicit integrate(t) heading against it
+        declared_tf = case["t0"] - (case["tf"] - case["t0"])
+        if target is None:
+            target = np.float64(case["tf"])
+    a = de.OdeSystem(P, y0=P.y0.copy(), t=(case["t0"], declared_tf), dense_output=bool(case["dense"]), dt=case["dt"], **kw)
     a.method = M.get(case["method"])
     snaps = []
 
